@@ -47,6 +47,7 @@ type verifOut struct {
 	SnapEq    []bool                 `json:"snap_eq"`    // restore(snapshot(state_k)) dumps equal to state_k
 	SnapDumps map[string]*verifDump  `json:"snap_dumps"` // the restored dump where it differs
 	ReplayEq  []bool                 `json:"replay_eq"`  // replay of the remaining steps from the restored copy reaches the final state
+	LateEq    []bool                 `json:"late_eq"`    // the Snapshot() object of prefix k, persisted only AFTER all later steps were applied, restores to the same state as when persisted at once
 	Panic     string                 `json:"panic,omitempty"`
 	Extra     map[string]interface{} `json:"extra,omitempty"`
 }
@@ -258,30 +259,38 @@ func (s *verifSink) ID() string    { return "verif" }
 func (s *verifSink) Cancel() error { return nil }
 func (s *verifSink) Close() error  { return nil }
 
-// verifSnapshotBytes: the production path Snapshot() -> fsmSnapshot.Persist(sink)
-func verifSnapshotBytes(f *ClusterFSM) ([]byte, error) {
-	snap, err := f.Snapshot()
-	if err != nil {
-		return nil, err
-	}
+// verifPersist: fsmSnapshot.Persist(sink) of a snapshot object obtained earlier from
+// ClusterFSM.Snapshot().  hashicorp/raft calls Persist asynchronously, after the FSM has
+// resumed applying commands, so the object must not share mutable data with the live FSM.
+func verifPersist(snap hraft.FSMSnapshot) ([]byte, error) {
 	sink := &verifSink{}
 	if err := snap.Persist(sink); err != nil {
 		return nil, err
 	}
-	snap.Release()
 	return sink.Bytes(), nil
 }
 
-func verifRestoreCopy(f *ClusterFSM) (*ClusterFSM, error) {
-	b, err := verifSnapshotBytes(f)
-	if err != nil {
-		return nil, err
-	}
+func verifRestoreBytes(b []byte) (*ClusterFSM, error) {
 	g := NewClusterFSM(zerolog.Nop())
 	if err := g.Restore(io.NopCloser(bytes.NewReader(b))); err != nil {
 		return nil, err
 	}
 	return g, nil
+}
+
+// verifRestoreCopy: the production path Snapshot() -> Persist(sink) -> Restore, back to back.
+// Also returns the snapshot object so that it can be persisted again later.
+func verifRestoreCopy(f *ClusterFSM) (*ClusterFSM, hraft.FSMSnapshot, error) {
+	snap, err := f.Snapshot()
+	if err != nil {
+		return nil, nil, err
+	}
+	b, err := verifPersist(snap)
+	if err != nil {
+		return nil, nil, err
+	}
+	g, err := verifRestoreBytes(b)
+	return g, snap, err
 }
 
 // verifStepApply runs one step; returns the (possibly replaced) FSM and whether the step returned nil.
@@ -303,7 +312,7 @@ func verifStepApply(f *ClusterFSM, st *verifStep) (*ClusterFSM, bool) {
 		r := f.Apply(&hraft.Log{Index: st.Idx, Data: data})
 		return f, r == nil
 	case "snap":
-		g, err := verifRestoreCopy(f)
+		g, _, err := verifRestoreCopy(f)
 		if err != nil {
 			return f, false
 		}
@@ -331,6 +340,8 @@ func verifRunCase(c *verifCase) (out verifOut) {
 	}
 	f := NewClusterFSM(zerolog.Nop())
 	copies := make([]*ClusterFSM, len(c.Steps))
+	snaps := make([]hraft.FSMSnapshot, len(c.Steps))
+	restoredKeys := make([]string, len(c.Steps))
 	for i := range c.Steps {
 		var ok bool
 		f, ok = verifStepApply(f, &c.Steps[i])
@@ -340,12 +351,14 @@ func verifRunCase(c *verifCase) (out verifOut) {
 			out.Dumps[fmt.Sprint(i)] = d
 		}
 		if c.Prefix {
-			g, err := verifRestoreCopy(f)
+			g, snap, err := verifRestoreCopy(f)
 			if err != nil {
 				panic(fmt.Sprintf("snapshot/restore failed at step %d: %v", i, err))
 			}
 			gd := verifDumpFSM(g)
-			eq := verifDumpKey(gd) == verifDumpKey(d)
+			snaps[i] = snap
+			restoredKeys[i] = verifDumpKey(gd)
+			eq := restoredKeys[i] == verifDumpKey(d)
 			out.SnapEq = append(out.SnapEq, eq)
 			if !eq {
 				out.SnapDumps[fmt.Sprint(i)] = gd
@@ -354,6 +367,19 @@ func verifRunCase(c *verifCase) (out verifOut) {
 		}
 	}
 	if c.Prefix {
+		// late Persist: every later step has been applied to the live FSM by now
+		for i := range c.Steps {
+			b, err := verifPersist(snaps[i])
+			if err != nil {
+				panic(fmt.Sprintf("late persist of the snapshot of step %d failed: %v", i, err))
+			}
+			g, err := verifRestoreBytes(b)
+			if err != nil {
+				panic(fmt.Sprintf("restore of the late-persisted snapshot of step %d failed: %v", i, err))
+			}
+			out.LateEq = append(out.LateEq, verifDumpKey(verifDumpFSM(g)) == restoredKeys[i])
+			snaps[i].Release()
+		}
 		final := verifDumpKey(verifDumpFSM(f))
 		for i := range c.Steps {
 			g := copies[i]
